@@ -34,7 +34,9 @@ impl<'a> ErrorCheck<'a> {
 impl ToTokens for ErrorCheck<'_> {
     fn to_tokens(&self, tokens: &mut TokenStream) {
         let at_call = if let Some(ref s) = self.location {
-            quote!(.map_err(|e| e.at(#s)))
+            // Only struct variants have a location: whatever goes wrong inside one concerns the
+            // nested item that selected the variant.
+            quote!(.map_err(|e| e.with_span(__nested).at(#s)))
         } else {
             quote!()
         };
